@@ -60,6 +60,8 @@ func (t TableKeys) MarshalJSON() ([]byte, error) {
 }
 
 type Op struct {
+	// Cancelled: the v2 call gets a context that is already cancelled (the fake never looks at it)
+	Cancelled bool `json:"cancelled,omitempty"`
 	Op    string `json:"op"`
 	Table HexS   `json:"table"`
 	// createTable
@@ -159,4 +161,26 @@ func itemOrEmpty(it Item) Item {
 		return Item{}
 	}
 	return it
+}
+
+
+// viaHelper: a CreateTable request that the AddTable helper of the client packages builds as well (string keys, no
+// indexes, pay per request, a throughput): half of those go through the helper
+func viaHelper(o *Op) bool {
+	if o.Key == nil || o.Key.Hash[1] != "S" || (o.Key.Range != nil && o.Key.Range[1] != "S") || o.GSI != nil || o.LSI != nil || !o.PPR || !o.TP {
+		return false
+	}
+	return len(o.Table)%2 == 0 || len(o.Key.Hash[0])%2 == 0
+}
+
+// indexViaHelper: an UpdateTable request that the AddIndex helper builds as well (one index, string keys, definitions sent, no throughput)
+func indexViaHelper(o *Op) *IndexDef {
+	if len(o.Changes) != 1 || o.Changes[0].Create == nil {
+		return nil
+	}
+	d := o.Changes[0].Create
+	if d.TP || d.NoDefs || d.Key.Hash[1] != "S" || (d.Key.Range != nil && d.Key.Range[1] != "S") {
+		return nil
+	}
+	return d
 }
